@@ -9,3 +9,12 @@ if os.environ.get("NELHAGE_TAKTICIAN_PYTHON_VERIF") == "1":
         takverif_stubs.install()
     except Exception:  # never break an interpreter start
         pass
+
+# Optional: measure which lines of /repo/python the correspondence executes (tools/tie_coverage.py).
+if os.environ.get("COVERAGE_PROCESS_START"):
+    try:
+        import coverage
+
+        coverage.process_startup()
+    except Exception:
+        pass
